@@ -54,7 +54,8 @@ pub fn deb822_parse(fs: &[&str]) -> String {
         Ok((d, errs)) => format!("{}:{}", hex(&d.to_string()), errs.len()),
         Err(_) => "ERR".to_string(),
     });
-    format!("lex={}|{}|strict={}|read={}|readr={}", lx, rel, strict, rd, rdr)
+    // blex: the same token list; the model side prints its byte-level lexer there
+    format!("lex={}|blex={}|{}|strict={}|read={}|readr={}", lx, lx, rel, strict, rd, rdr)
 }
 
 /// stream deb822-doc: fields = [hex text; doc encoding (model side only); hex probe key]
